@@ -1011,6 +1011,17 @@ class Domain:
                 out.append(("elemall", p))
         if isinstance(value, ast.Subscript):
             out.extend(self._subscript_value_facts(p, value, st))
+        if isinstance(value, ast.ListComp) and len(value.generators) == 1 and isinstance(value.elt, ast.Name) \
+                and isinstance(value.generators[0].target, ast.Name) and value.elt.id == value.generators[0].target.id:
+            # [x for x in L if ...]: a (filtered) snapshot -- every element was an element of L when it was taken
+            src = value.generators[0].iter
+            if isinstance(src, ast.Call) and isinstance(src.func, ast.Attribute) and src.func.attr == "copy" and not src.args:
+                src = src.func.value
+            elif isinstance(src, ast.Call) and isinstance(src.func, ast.Name) and src.func.id in ("list", "tuple") and len(src.args) == 1:
+                src = src.args[0]
+            sp = self.path(src)
+            if sp is not None and self.type_of(src) in (T_NLIST, T_LIST):
+                out.append(("snap", p, sp))
         lv = F.is_len_call(value)
         if lv is not None and self.path(lv) is not None:
             out.append(("islen", p, self.path(lv)))
